@@ -259,7 +259,7 @@ func reifyMap(opts *options, to reflect.Value, from *Config, validators []valida
 			return err
 		}
 		if v.IsValid() {
-			to.SetMapIndex(key, v)
+			to.SetMapIndex(key, pointerize(to.Type().Elem(), v.Type(), v))
 		}
 	}
 
@@ -641,7 +641,8 @@ func reifyDoArray(
 				return reflect.Value{}, err
 			}
 			if v.IsValid() {
-				to.Index(idx).Set(v)
+				elem := to.Index(idx)
+				elem.Set(pointerize(elem.Type(), v.Type(), v))
 			}
 		} else {
 			if err := tryRecursiveValidate(to.Index(idx), opts.opts, nil); err != nil {
